@@ -1,6 +1,6 @@
 (* C07 — property theorems.  Only statements, [exact lemma] and Print Assumptions. *)
 From Coq Require Import ZArith List Permutation Sorted.
-From FV Require Import Lib.RustInt C05.Model C05.Proofs C07.Proofs C07.Equiv C07.PromoteModel C07.Promote C07.IdGen C07.IdCounter.
+From FV Require Import Lib.RustInt C05.Model C05.Proofs C07.Proofs C07.Equiv C07.PromoteModel C07.Promote C07.IdGen C07.IdCounter C07.SharedPtsModel C07.SharedPts.
 Import ListNotations.
 Open Scope Z_scope.
 
@@ -128,6 +128,32 @@ Theorem c07_narrow_counter_not_monotone : forall w, 0 < w ->
   exists a b, 0 <= a /\ a < b /\ b <= 2 ^ w /\ id_of_draw_bits w b < id_of_draw_bits w a.
 Proof. exact narrow_counter_not_monotone. Qed.
 
+(* ---- round 4: gvar shared point numbers (GlyphVariations::compute_shared_points, max_by_first_key) ---- *)
+
+(* the chosen packing is the FIRST candidate — in order of first occurrence among the glyph's tuples (IndexMap) — that is
+   used more than once and maximises (count - 1) * size; None iff no packing is used twice *)
+Theorem c07_shared_points_first_max : forall tuples,
+  match compute_shared_points tuples with
+  | Some p => exists c, p = c_pts c /\ first_max saving (filter shared_enough (count_sets tuples)) c
+  | None => filter shared_enough (count_sets tuples) = []
+  end.
+Proof. exact compute_shared_points_first_max. Qed.
+
+(* when one candidate strictly wins, any iteration order of the counting map gives the same choice *)
+Theorem c07_shared_points_strict_winner_order_independent : forall (perm : list cand -> list cand) tuples c,
+  (forall l, Permutation l (perm l)) ->
+  In c (filter shared_enough (count_sets tuples)) ->
+  (forall y, In y (filter shared_enough (count_sets tuples)) -> y <> c -> saving y < saving c) ->
+  compute_shared_points_perm perm tuples = Some (c_pts c) /\ compute_shared_points tuples = Some (c_pts c).
+Proof. exact compute_shared_points_strict_winner. Qed.
+
+(* FULL statement (forall perm, compute_shared_points_perm perm = compute_shared_points) is FALSE of the faithful model:
+   under a tie the insertion order of the IndexMap is load-bearing *)
+Theorem c07_shared_points_hash_order_refuted :
+  exists (perm : list cand -> list cand) tuples,
+    (forall l, Permutation l (perm l)) /\ compute_shared_points_perm perm tuples <> compute_shared_points tuples.
+Proof. exact shared_points_hash_order_refuted. Qed.
+
 (* NOT covered by these theorems: the space-assignment / isolation / duplication path (not modelled: the
    model answers Beyond there, identically for all streams), gvar / IVS / klippa: schedule experiment only. *)
 
@@ -151,3 +177,6 @@ Print Assumptions c07_ids_never_wrap.
 Print Assumptions c07_ids_strictly_monotone.
 Print Assumptions c07_process_history_independent.
 Print Assumptions c07_narrow_counter_not_monotone.
+Print Assumptions c07_shared_points_first_max.
+Print Assumptions c07_shared_points_strict_winner_order_independent.
+Print Assumptions c07_shared_points_hash_order_refuted.
